@@ -331,7 +331,46 @@ fn generated_models() -> Vec<(String, String)> {
   for (k, x) in crate::engines::c11::sample_models().into_iter().enumerate() {
     out.push((format!("generated/item-definitions-{}", k), x));
   }
+  out.push(("generated/decision-tables".to_string(), table_model()));
   out
+}
+
+/// Decision tables with several output clauses, output values, default output entries and annotations whose rules match
+/// the inputs of the standard invocations (any value / the number 1 / the string "a"), so that faults in the clauses and
+/// rules are followed into the composition of a result.
+fn table_model() -> String {
+  use crate::dmn;
+  let mut m = dmn::Model::new("https://verif/c12t", "c12t");
+  m.inputs.push(dmn::Input { name: "x".into(), type_ref: "number".into() });
+  let out = |n: &str, vals: Option<&str>, def: Option<&str>| dmn::TableOutput { name: Some(n.into()), type_ref: None, values: vals.map(|v| v.to_string()), default: def.map(|v| v.to_string()) };
+  for (name, hp, agg) in [("U", "UNIQUE", None), ("F", "FIRST", None), ("P", "PRIORITY", None), ("C", "COLLECT", None), ("R", "RULE ORDER", None), ("O", "OUTPUT ORDER", None), ("N", "COLLECT", Some("COUNT"))] {
+    m.decisions.push(dmn::Decision {
+      name: name.into(),
+      type_ref: None,
+      requires: dmn::Requires { inputs: vec!["x".into()], ..Default::default() },
+      logic: Some(dmn::Expr::Table(dmn::Table {
+        hit_policy: hp.into(),
+        aggregation: agg.map(|a: &str| a.to_string()),
+        output_label: None,
+        inputs: vec![dmn::TableInput { expr: "x".into(), type_ref: None, values: None }],
+        outputs: vec![out("a", Some("1,2,3"), Some("3")), out("b", Some("\"p\",\"q\""), Some("\"q\""))],
+        rules: if hp == "UNIQUE" {
+          vec![dmn::TableRule { inputs: vec!["-".into()], outputs: vec!["1".into(), "\"p\"".into()] }]
+        } else {
+          vec![
+            dmn::TableRule { inputs: vec!["1".into()], outputs: vec!["1".into(), "\"p\"".into()] },
+            dmn::TableRule { inputs: vec!["\"a\"".into()], outputs: vec!["2".into(), "\"q\"".into()] },
+            dmn::TableRule { inputs: vec!["-".into()], outputs: vec!["2".into(), "\"p\"".into()] },
+          ]
+        },
+      })),
+    });
+  }
+  m.to_xml()
+}
+
+pub fn generated_models_for_debug() -> Vec<(String, String)> {
+  generated_models()
 }
 
 fn corpus(family: &str, tier: &str) -> Corpus {
